@@ -226,21 +226,19 @@ void from_int(Rng& rng)
         fputs(" => ", stdout); \
         VH_RUN(EXPR, print_w) \
     }
+template<class P>
+void print_pair(P const& p)
+{
+    print_w(p.first);
+    putchar('/');
+    prhex(p.second);
+}
 #define UNPOST(NAME, OP) \
     { \
         printf("C10 un " NAME " %s ", tn<W>().c_str()); \
         prhex(a); \
         fputs(" => ", stdout); \
-        int vh_rc = sigsetjmp(vh::jb, 1); \
-        if (vh_rc == 0) { \
-            W c = a; \
-            W old = c OP; \
-            print_w(old); \
-            putchar('/'); \
-            prhex(c); \
-        } else \
-            vh::print_fail(vh_rc); \
-        putchar('\n'); \
+        VH_RUN(([&] { W c = a; W old = c OP; return std::make_pair(old, c); }()), print_pair) \
     }
 
 template<class W>
@@ -256,6 +254,18 @@ void unary(W const& a)
         prhex(a);
         fputs(" => ", stdout);
         VH_RUN(([&] { std::ostringstream os; os << a; return os.str(); }()), print_str)
+    }
+    using L = std::numeric_limits<W>;
+    // cnl::to_chars on an *unsigned* multi-limb wide_integer does not compile (value / int base has no
+    // mixed-signedness operator in uintwide_t): not instantiable, left out
+    if constexpr (WI<W>::is_signed)
+    if (!(a < -L::max()) && !(a > L::max())) {  // cnl::to_chars: documented domain is the numeric_limits range
+        printf("C10 chars %s ", tn<W>().c_str());
+        prhex(a);
+        fputs(" => ", stdout);
+        alarm(20);
+        VH_RUN(([&] { auto r = cnl::to_chars_static(a); return std::string(r.chars.data(), std::size_t(r.length)); }()), print_str)
+        alarm(0);
     }
 }
 
